@@ -90,12 +90,7 @@ func hashUserType(ut UserType, ignoreFields, ignoreNames, ignoreTags bool, seen 
 	}
 	att := ut.Attribute()
 	if !ignoreTags {
-		for k, v := range att.Meta {
-			if !strings.HasPrefix(k, "struct:field:") {
-				continue
-			}
-			h += fmt.Sprintf("%s%s%s", tagPrefix, k, v)
-		}
+		h += hashFieldTags(att.Meta)
 	}
 	h += userTypeHashPrefix + *hash(att.Type, ignoreFields, ignoreNames, ignoreTags, seen)
 	return &h
@@ -112,15 +107,27 @@ func hashObject(o *Object, ignoreFields, ignoreNames, ignoreTags bool, seen map[
 		*ph += attributePrefix + a.Name +
 			attributeTypePrefix + *hash(a.Attribute.Type, ignoreFields, ignoreNames, ignoreTags, seen)
 		if !ignoreTags {
-			for k, v := range a.Attribute.Meta {
-				if !strings.HasPrefix(k, "struct:field:") {
-					continue
-				}
-				*ph += fmt.Sprintf("%s%s%s", tagPrefix, k, v)
-			}
+			*ph += hashFieldTags(a.Attribute.Meta)
 		}
 	}
 	return ph
+}
+
+// hashFieldTags hashes the "struct:field:xxx" tags in key order so that the
+// result does not depend on the map iteration order.
+func hashFieldTags(meta MetaExpr) string {
+	keys := make([]string, 0, len(meta))
+	for k := range meta {
+		if strings.HasPrefix(k, "struct:field:") {
+			keys = append(keys, k)
+		}
+	}
+	sort.Strings(keys)
+	h := ""
+	for _, k := range keys {
+		h += fmt.Sprintf("%s%s%s", tagPrefix, k, meta[k])
+	}
+	return h
 }
 
 func sorted(o *Object) Object {
